@@ -40,8 +40,18 @@
 (*        record: every transferred call node has an empty task set in the *)
 (*        destination and passes the shallow validity check regardless of  *)
 (*        the current task hashes (DESIGN C03, reported there).            *)
+(*   EmptySubtreeAccepted    (repaired in redun by a1120b6) the ULTIMATE   *)
+(*        lookup used a call node with no recorded subtree tasks; only with*)
+(*        this on does SubtreeRowsNotTransferred make the cache unsafe.    *)
+(*   The first and the last are repaired in /repo (ff56d8a, a1120b6): the  *)
+(*   as-built configuration is {StaleJobRowKept, SubtreeRowsNotTransferred}*)
 (***************************************************************************)
 EXTENDS Naturals, Sequences, FiniteSets, TLC
+
+CONSTANTS Deviations,   \* subset of {"ChildOrderUnspecified", "StaleJobRowKept", "SubtreeRowsNotTransferred",
+                        \*            "EmptySubtreeAccepted"}
+          MaxExec, MaxTagOps, MaxXfer
+Dev(d) == d \in Deviations
 
 NULL == "~"
 PKTables == {"Execution", "Job", "CallNode", "Value", "Tag"}
@@ -53,13 +63,13 @@ Has(db, n, x) == \E r \in T(db, n) : r[2] = x
 (***************************************************************************)
 (* Ownership edges.                                                        *)
 (***************************************************************************)
-Children(db, ids) ==
+ChildrenX(db, ids, taskEdge) ==
   LET args == {a \in T(db, "Argument") : a[3] \in ids} IN
     {r[4] : r \in {x \in T(db, "Execution") : x[2] \in ids}}                      \* Execution.job
     \cup {r[5] : r \in {x \in T(db, "Job") : x[2] \in ids}}                        \* Job.task
     \cup {r[7] : r \in {x \in T(db, "Job") : x[2] \in ids}}                        \* Job.call_hash
     \cup {r[2] : r \in {x \in T(db, "Job") : x[8] \in ids}}                        \* Job.child_job
-    \cup {r[4] : r \in {x \in T(db, "CallNode") : x[2] \in ids}}                   \* CallNode.task
+    \cup (IF taskEdge THEN {r[4] : r \in {x \in T(db, "CallNode") : x[2] \in ids}} ELSE {})  \* CallNode.task
     \cup {r[6] : r \in {x \in T(db, "CallNode") : x[2] \in ids}}                   \* CallNode.result
     \cup {a[4] : a \in args}                                                       \* CallNode.arg
     \cup {u[3] : u \in {x \in T(db, "ArgResult") : \E a \in args : a[2] = x[2]}}   \* CallNode.upstream
@@ -69,13 +79,19 @@ Children(db, ids) ==
     \cup {e[3] : e \in {x \in T(db, "TagEdit") : x[2] \in ids}}                    \* Tag.child
     \cup {t[2] : t \in {x \in T(db, "Tag") : x[4] \in ids}}                        \* Entity.tag
 
-RECURSIVE Reach(_, _, _)
-Reach(db, frontier, seen) ==
+Children(db, ids) == ChildrenX(db, ids, TRUE)
+
+RECURSIVE ReachX(_, _, _, _)
+ReachX(db, frontier, seen, taskEdge) ==
   IF frontier = {} THEN seen
-  ELSE LET nxt == (Children(db, frontier) \ {NULL}) \ seen IN Reach(db, nxt, seen \cup nxt)
+  ELSE LET nxt == (ChildrenX(db, frontier, taskEdge) \ {NULL}) \ seen IN ReachX(db, nxt, seen \cup nxt, taskEdge)
 
 (* iter_record_ids: only root ids that name a record are walked *)
-Closure(db, roots) == LET r0 == roots \cap PK(db) IN Reach(db, r0, r0)
+Closure(db, roots) == LET r0 == roots \cap PK(db) IN ReachX(db, r0, r0, TRUE)
+(* the walk without the CallNode -> Task edge: looks redundant (every job names its task) until a
+   call node is reachable through call edges only -- a subtree answered by ultimate reduction has
+   a job for its top call and none below.  Used for the control TaskEdgeRedundant. *)
+ClosureNoTaskEdge(db, roots) == LET r0 == roots \cap PK(db) IN ReachX(db, r0, r0, FALSE)
 
 (***************************************************************************)
 (* One serialised record: the owner row and the rows deserialize() creates *)
@@ -193,6 +209,7 @@ SubtreeOf(db, c) == {s[3] : s \in {x \in T(db, "Subtree") : x[2] = c}}
    all still exist -- and whose result value is present *)
 ShallowHit(db, task, args, cur) ==
   \E c \in T(db, "CallNode") : c[4] = task /\ c[5] = args /\ SubtreeOf(db, c[2]) \subseteq cur
+                               /\ (Dev("EmptySubtreeAccepted") \/ SubtreeOf(db, c[2]) # {})
                                /\ Has(db, "Value", c[6])
 (* SINGLE: an Evaluation row for the eval hash (task, args) whose value is present *)
 SingleHit(db, task, args) ==
@@ -212,13 +229,13 @@ CacheSafeAt(src, d0, d1, task, args, cur, shallow) ==
 (*                                                                         *)
 (*   w1: main1() -> f(v1) = File vf;  main1 returns [vf]   (Subvalue, File)*)
 (*   w2: main2() -> f(v1), g(x = <result of f>) = v2       (two ordered    *)
-(*       children, keyword argument, upstream link)                        *)
+(*       children, keyword argument, upstream link); g is declared         *)
+(*       check_valid = shallow and calls h(v1): when g's call node is      *)
+(*       already recorded, a later execution has a cached job for g and NO *)
+(*       job for h (ultimate reduction)                                    *)
 (* Call nodes, values, tasks and tags are content addressed (same ids in   *)
 (* both repositories); executions and jobs get fresh ids.                  *)
 (***************************************************************************)
-CONSTANTS Deviations,   \* subset of {"ChildOrderUnspecified", "StaleJobRowKept", "SubtreeRowsNotTransferred"}
-          MaxExec, MaxTagOps, MaxXfer
-
 Repos == {"A", "B"}
 Other(R) == IF R = "A" THEN "B" ELSE "A"
 
@@ -244,8 +261,13 @@ Content(w, R) ==
                   <<"Argument", "arg_g", "c_g", "vf", NULL, "x">>, <<"ArgResult", "arg_g", "c_f">>,
                   <<"Subtree", "c_m2", "t_m2">>, <<"Subtree", "c_m2", "t_f">>, <<"Subtree", "c_m2", "t_g">>,
                   <<"Subtree", "c_g", "t_g">>,
-                  <<"Eval", "ev_m2", "t_m2", "a0", "v2">>, <<"Eval", "ev_g", "t_g", "a2", "v2">>}
-            \cup ValueRows("v2") \cup TaskRows("t_m2") \cup TaskRows("t_g")
+                  <<"Eval", "ev_m2", "t_m2", "a0", "v2">>, <<"Eval", "ev_g", "t_g", "a2", "v2">>,
+                  \* g is a check_valid = shallow task that calls h(v1)
+                  <<"CallNode", "c_h", "h", "t_h", "a3", "v2", "ts" \o R>>, <<"CallEdge", "c_g", "c_h", "0">>,
+                  <<"Argument", "arg_h", "c_h", "v1", "0", NULL>>,
+                  <<"Subtree", "c_h", "t_h">>, <<"Subtree", "c_g", "t_h">>, <<"Subtree", "c_m2", "t_h">>,
+                  <<"Eval", "ev_h", "t_h", "a3", "v2">>}
+            \cup ValueRows("v2") \cup TaskRows("t_m2") \cup TaskRows("t_g") \cup TaskRows("t_h")
 
 (* what a run adds to a repository holding d: record_call_node / record_value write nothing for a
    call node or value that is already there (no edges, arguments or subtree rows either) *)
@@ -269,6 +291,9 @@ JobRows(n, w, before, done) ==
           NULL, EId(n)>>}
        \cup {<<"Job", JId(n, k), "s", "t", Kids(w)[k][1], Bit(Has(before, "CallNode", Kids(w)[k][2])),
                 Kids(w)[k][2], JId(n, 0), EId(n)>> : k \in 1..Len(Kids(w))}
+       \cup (IF w = "w2" /\ ~Has(before, "CallNode", "c_g")       \* h runs only when g really runs
+             THEN {<<"Job", JId(n, 3), "s", "t", "t_h", Bit(Has(before, "CallNode", "c_h")), "c_h", JId(n, 2), EId(n)>>}
+             ELSE {})
 ExecRow(n) == <<"Execution", EId(n), "args", JId(n, 0)>>
 
 VARIABLES db,      \* [Repos -> set of rows]
@@ -330,7 +355,6 @@ TagDelete(R, e) ==
                                      \cup {<<"TagEdit", q, id>> : q \in ps}]
   /\ ntag' = ntag + 1 /\ last' = NoLast /\ UNCHANGED <<pend, nexec, nx>>
 
-Dev(d) == d \in Deviations
 Reverse(d, P) ==    \* one member of the permutation family: reverse the children of the nodes in P
   {IF r[1] = "CallEdge" /\ r[2] \in P
      THEN <<r[1], r[2], r[3], ToString(Cardinality(EdgesOf(d, r[2])) - 1 - (CHOOSE i \in 0..9 : ToString(i) = r[4]))>>
@@ -374,17 +398,19 @@ NothingLost == last.on => Monotone(last.src, last.d0, After, last.roots)
 TwiceAddsNothing ==
   last.on => /\ New(last.src, After, last.roots) = {}
              /\ \A flip \in BOOLEAN : XferModel(last.src, After, last.roots, flip) = After
-AllTasks == {"t_f", "t_g", "t_m1", "t_m2"}
+AllTasks == {"t_f", "t_g", "t_h", "t_m1", "t_m2"}
 Calls(d) == {<<c[4], c[5]>> : c \in T(d, "CallNode")}
 CacheSafe ==
   last.on => \A q \in Calls(last.src) \cup Calls(last.d0), cur \in SUBSET AllTasks, sh \in BOOLEAN :
                 CacheSafeAt(last.src, last.d0, After, q[1], q[2], cur, sh)
 (* the as-built operator is what the machine does, up to child order *)
 AsBuiltAgrees ==
-  (last.on /\ Deviations = {"ChildOrderUnspecified", "StaleJobRowKept", "SubtreeRowsNotTransferred"}) =>
+  (last.on /\ {"StaleJobRowKept", "SubtreeRowsNotTransferred"} \subseteq Deviations) =>
      SameUpToChildOrder(After, XferAsBuilt(last.src, last.d0, last.roots),
                         New(last.src, last.d0, last.roots))
 IdealAgrees == (last.on /\ Deviations = {}) => After = XferIdeal(last.src, last.d0, last.roots)
+(* model-level control (expected to be VIOLATED): the CallNode -> Task edge is not redundant *)
+TaskEdgeRedundant == last.on => Closure(last.src, last.roots) = ClosureNoTaskEdge(last.src, last.roots)
 TypeOK == \A R \in Repos : \A r \in db[R] : r[1] \in PKTables \cup {"CallEdge", "Argument", "ArgResult",
              "Subvalue", "File", "Task", "TagEdit", "Subtree", "Eval"}
 (* tags: is_current <=> no child edit, in every repository at every time (what Post re-establishes) *)
